@@ -3479,8 +3479,11 @@ void CheckOther::checkNegativeBitwiseShift()
         // Get negative rhs value. preferably a value which doesn't have 'condition'.
         if (portability && getNegativeValue(tok->astOperand1(), *mSettings))
             negativeBitwiseShiftError(tok, 1);
-        else if (const ValueFlow::Value *value = getNegativeValue(tok->astOperand2(), *mSettings))
-            negativeBitwiseShiftError(tok, 2, value);
+        else if (const ValueFlow::Value *value = getNegativeValue(tok->astOperand2(), *mSettings)) {
+            // a value that hangs on a condition or a default argument is graded warning: only with warnings enabled
+            if (mSettings->isEnabled(value, false))
+                negativeBitwiseShiftError(tok, 2, value);
+        }
     }
 }
 
